@@ -188,7 +188,7 @@ func c10malformed(seed uint64, idx int) (string, string, []string) {
 			if strict {
 				viol = append(viol, fmt.Sprintf("a well-formed archive is answered %d instead of %d while another object is malformed (%s)", q.status, st, desc))
 			}
-		case q.status == 204 && st == 200 && idx%6 != 4:
+		case q.status == 204 && st == 200 && idx%8 != 4 && idx%8 != 1: // a flipped directory byte or a redirected section offset can yield a different, parsable directory
 			viol = append(viol, fmt.Sprintf("malformed object (%s): 204 No Content for a tile the archive stores", desc))
 		case strict && (q.status != st || (st == 200 && string(body) != string(q.body))):
 			viol = append(viol, fmt.Sprintf("a well-formed archive is answered %d instead of %d while another object is malformed (%s)", q.status, st, desc))
